@@ -825,8 +825,49 @@ OWNED = "lockable::OwnedLockable"
 DUP_ROLES = ("dup_sorted", "dup_set")
 
 
-def _has_owned_bound(f):
-    return any(p["k"] == "trait" and p["trait"] == OWNED for p in f.get("predicates", []))
+def _ty_same(a, b):
+    """structural equality of two type descriptions, regions ignored"""
+    if a.get("k") != b.get("k"):
+        return False
+    k = a["k"]
+    if k == "param":
+        return a.get("name") == b.get("name")
+    if k in ("ref", "ptr"):
+        return bool(a.get("mut")) == bool(b.get("mut")) and _ty_same(a["ty"], b["ty"])
+    if k in ("adt", "alias"):
+        xa = [x for x in a.get("args", []) if x.get("k") not in ("region",)]
+        xb = [x for x in b.get("args", []) if x.get("k") not in ("region",)]
+        return a.get("path", a.get("name")) == b.get("path", b.get("name")) and len(xa) == len(xb) and \
+            all(_ty_same(x, y) if x.get("k") != "const" else x.get("s") == y.get("s") for x, y in zip(xa, xb))
+    if k == "tuple":
+        return len(a["elems"]) == len(b["elems"]) and all(_ty_same(x, y) for x, y in zip(a["elems"], b["elems"]))
+    if k in ("array", "slice"):
+        return _ty_same(a["ty"], b["ty"])
+    return a.get("s") == b.get("s")
+
+
+def _has_owned_bound(f, adt=None):
+    """does `f` require its lockable to be OwnedLockable?  The bound counts only when it is on the type the constructed
+    collection actually stores: `X: OwnedLockable` for `Coll<X>`; for the sorting and retrying collections also
+    `Y: OwnedLockable` for `Coll<&Y>` (every collection over `&Y` reaches the same duplicate-free locks in one order) - but
+    not for the owned collection, which locks in declaration order and hides its members from enclosing collections"""
+    owned = [p["self"] for p in f.get("predicates", []) if p["k"] == "trait" and p["trait"] == OWNED]
+    if not owned:
+        return False
+    colls = [x for x in ty_walk(f["output"]) if x["k"] == "adt" and x["path"] in COLLS] if f.get("output") else []
+    if not colls:
+        return True
+    for c in colls:
+        xs = [a for a in c.get("args", []) if a.get("k") not in ("region", "const")]
+        if not xs:
+            continue
+        x = xs[-1]
+        if any(_ty_same(x, o) for o in owned):
+            continue
+        if c["path"] != "collection::OwnedLockCollection" and x["k"] == "ref" and not x.get("mut") and any(_ty_same(x["ty"], o) for o in owned):
+            continue
+        return False
+    return True
 
 
 def _agg_sites(ctx, adts):
